@@ -732,6 +732,53 @@ def run(prog, rep, tier):
     if n411 < 25:
         raise CheckerError("R4.11: only %d hour-only rows examined (expected >= 25)" % n411)
 
+    # ------------------------------------------------------------ R4.17 a full-offset row accepts every month spelling its hour-only sibling accepts
+    # Rows that are equal up to the zone group *and up to the month group* are one notation in several
+    # spellings.  If the hour-only row (`%#z`) accepts month spellings (full names) that the row reading
+    # `+HH:MM` / `+HHMM` does not, a line with such a month and a four-digit offset matches only the
+    # hour-only row: `Thu February 27 00:33:59 2020 -03:30` was read as -03:00 (defect F50).
+    R417 = rep.rule("R4.17", "within a notation, the full-offset rows accept every month spelling of the hour-only row")
+    mfam_ = _col.defaultdict(list)
+    mre_ = _re4.compile(r"\(\?P<month>")
+    for pre_, members in fam_.items():
+        k_ = pre_.find("(?P<month>")
+        if k_ < 0:
+            continue
+        # cut the month group out of the prefix
+        d_ = 0
+        end_ = None
+        for ci in range(k_, len(pre_)):
+            ch_ = pre_[ci]
+            if ch_ == "(" and (ci == 0 or pre_[ci - 1] != "\\"):
+                d_ += 1
+            elif ch_ == ")" and pre_[ci - 1] != "\\":
+                d_ -= 1
+                if d_ == 0:
+                    end_ = ci + 1
+                    break
+        if end_ is None:
+            continue
+        mfam_[pre_[:k_] + "<MONTH>" + pre_[end_:]].extend(members)
+
+    def _mlang(i_):
+        g_ = next((g2_ for g2_ in res[i_].get("groups", []) if g2_["name"] == "month"), None)
+        return set(x_.lower() for x_ in g_["language"]) if g_ and g_.get("language") else None
+    n417 = 0
+    for key_, members in mfam_.items():
+        hs_ = [i_ for i_ in members if rows[i_]["fields"]["dtfs"]["fields"]["tz"].get("variant") == "zp" and _mlang(i_)]
+        fs_ = [i_ for i_ in members if rows[i_]["fields"]["dtfs"]["fields"]["tz"].get("variant") in ("z", "zc") and _mlang(i_)]
+        for h_ in hs_:
+            for f_ in fs_:
+                n417 += 1
+                miss_ = sorted(_mlang(h_) - _mlang(f_))
+                rep.examined(R417, "rows %d,%d" % (h_, f_), sample={"hour_only_row": h_, "line": rows[h_]["fields"].get("_line_num"), "full_offset_row": f_, "full_line": rows[f_]["fields"].get("_line_num"),
+                                                                     "month_spellings_only_the_hour_only_row_accepts": miss_[:4]})
+                if miss_:
+                    rep.violation(R417, "row|%s|%s|month-spellings" % (rows[f_]["fields"]["dtfs"]["fields"]["pattern"], key_[:40]), "DATETIME_PARSE_DATAS[%d] (source line %s, %s) does not accept the month spellings %s that its hour-only sibling row %d (source line %s, %%#z) accepts; "
+                                  "a timestamp with such a month and a `-03:30` offset is matched only by the hour-only row and read as -03:00" % (f_, rows[f_]["fields"].get("_line_num"), rows[f_]["fields"]["dtfs"]["fields"]["pattern"], miss_[:3], h_, rows[h_]["fields"].get("_line_num")))
+    if n417 < 4:
+        raise CheckerError("R4.17: only %d (hour-only, full-offset) row pairs with a month group found" % n417)
+
     # ------------------------------------------------------------ R4.12 the numeric zone rows of a family agree on what may precede the zone
     # Rows that read the same notation with `+HHMM`, `+HH:MM` and `+HH` differ in the zone group only.
     # If one of them demands a blank before the zone where its siblings make it optional, a timestamp
